@@ -111,7 +111,37 @@ def _writer_lines(messages: List[Any], burst: bool = False) -> Any:
     return lines[:-1]
 
 
+def deep_text(depth: int, kind: str, leaf: str) -> str:
+    """a valid JSON document nested `depth` levels, written directly as text (what a peer may send)"""
+    opens, closes = [], []
+    for i in range(depth):
+        d = kind == "dict" or (kind == "alt" and i % 2)
+        opens.append('{"k":' if d else "[")
+        closes.append("}" if d else "]")
+    return "".join(opens) + leaf + "".join(reversed(closes))
+
+
+def check_decode_deep(case: Dict[str, Any]) -> Outcome:
+    """a deep document decodes to the same value under every backend (str and bytes input) or under none"""
+    depth, kind, leaf = case["decode_deep"]
+    out = Outcome(nontrivial=True, classes=("decode-deep", f"depth:{'<=254' if depth <= 254 else ('<=1024' if depth <= 1024 else '>1024')}", f"kind:{kind}"))
+    text = deep_text(depth, kind, leaf)
+    res = [w.request({"op": "json_decode_digest", "texts": [text]}) for w in workers()]
+    flat = [tuple(r) for rs in res for r in rs]
+    oks = [r for r in flat if r[0] == "ok"]
+    if oks and len(oks) != len(flat):
+        names = [f"{lab}:{form}={r[0] if r[0] == 'ok' else r[1]}" for lab, rs in zip(("fast", "stdlib"), res) for form, r in zip(("str", "bytes"), rs)]
+        out.fail("deep-document-decodes-under-one-backend-only", f"depth {depth} ({kind}, leaf {leaf}): {names}")
+    elif oks and len({r[1] for r in oks}) != 1:
+        out.fail("deep-document-decodes-to-different-values", f"depth {depth} ({kind})")
+    elif oks and any(r[2] != depth for r in oks):
+        out.fail("deep-document-decodes-to-another-depth", f"depth {depth} ({kind}): containers seen {[r[2] for r in oks]}")
+    return out
+
+
 def check(case: Dict[str, Any]) -> Outcome:
+    if "decode_deep" in case:
+        return check_decode_deep(case)
     out = Outcome()
     values: List[Any] = [expand_deep(v) for v in case["values"]]
     deep = [depth_of(v) >= 250 for v in values]
@@ -364,6 +394,14 @@ def job_deep(col: Collector, seed: int, tier: str) -> None:
             o.classes = ("deep-values",)
             col.record(case, o)
     col.exhaustive_parts.append("deep values: depth {100,252..256,300} x {list, dict, alternating} x 4 leaves through every encoder path")
+    # documents a peer may send, around each decoder's own nesting limit (orjson: 1024; the stdlib: the interpreter's)
+    depths = [200, 254, 255, 256, 512, 1000, 1022, 1023, 1024, 1025, 1026, 1030, 1100, 1200, 1300, 1400, 1450, 1600, 2500, 5000]
+    for depth in depths:
+        for kind in ("list", "dict", "alt"):
+            for leaf in ("1", '"\u00e9"', "null", "18446744073709551615"):
+                case = {"decode_deep": [depth, kind, leaf]}
+                col.record(case, check(case))
+    col.exhaustive_parts.append(f"decoding documents nested {depths} levels x 3 container kinds x 4 leaves, str and bytes, both backends")
 
 
 def job_siblings(col: Collector, seed: int, tier: str) -> None:
